@@ -24,7 +24,7 @@ func checkC12(c *Ctx, r *Report) {
 	if fn := p.MustFunc(r, "sm2.GenerateKey"); fn != nil {
 		var accept []*ssa.Return
 		for _, b := range fn.Blocks {
-			if ret, ok := b.Instrs[len(b.Instrs)-1].(*ssa.Return); ok && isNilConst(ret.Results[3]) {
+			if ret, ok := b.Instrs[len(b.Instrs)-1].(*ssa.Return); ok && isNilConst(retVals(ret)[3]) {
 				accept = append(accept, ret)
 			}
 		}
@@ -52,7 +52,7 @@ func checkC12(c *Ctx, r *Report) {
 				}, draw)
 			}
 			enc := xf("SM2Point.Bytes", xf("ScalarBaseMult", K))
-			got := []string{normText(ps.S(ret.Results[0])), normText(ps.S(ret.Results[1])), normText(ps.S(ret.Results[2]))}
+			got := []string{normText(ps.S(retVals(ret)[0])), normText(ps.S(retVals(ret)[1])), normText(ps.S(retVals(ret)[2]))}
 			ok := got[0] == K && got[1] == enc+"[1:33]" && got[2] == enc+"[33:]"
 			r.Check(ok, "KEYPAIR-EXPRESSION", "sm2.GenerateKey", p.InstrPos(ret), fmt.Sprintf("returns (%s); expected (%s, %s[1:33], %s[33:])", strings.Join(got, ", "), K, enc, enc))
 			r.Check(ps.draws == 1, "DRAW-UNIT", "sm2.GenerateKey one draw per candidate", p.InstrPos(ret), fmt.Sprintf("%d draws on the accepting path", ps.draws))
@@ -72,7 +72,7 @@ func checkC12(c *Ctx, r *Report) {
 		n := 0
 		for _, b := range fn.Blocks {
 			ret, ok := b.Instrs[len(b.Instrs)-1].(*ssa.Return)
-			if !ok || isFalseConst(ret.Results[0]) {
+			if !ok || isFalseConst(retVals(ret)[0]) {
 				continue
 			}
 			n++
@@ -83,7 +83,7 @@ func checkC12(c *Ctx, r *Report) {
 				{"(x canonical 32 bytes, error)", []string{"err(" + X + ") == nil"}, "false"},
 				{"(y canonical 32 bytes, error)", []string{"err(" + Y + ") == nil"}, "false"},
 			}, nil)
-			got := ps.S(ret.Results[0])
+			got := ps.S(retVals(ret)[0])
 			r.Check(got == "("+xf("Sm2CheckOnCurve", X, Y)+" == nil)", "VERDICT-EXPRESSION", "sm2.CheckOnCurve", p.InstrPos(ret), "verdict is "+got)
 		}
 		r.Check(n == 1, "SINGLE-ACCEPT", "sm2.CheckOnCurve", p.Pos(fn.Pos()), fmt.Sprintf("%d true-capable returns", n))
@@ -130,13 +130,13 @@ func c12ValidatedScalars(r *Report, p *Prog, f *Folder) {
 	if fn := p.MustFunc(r, "sm2.DerivePublic"); fn != nil {
 		for _, b := range fn.Blocks {
 			ret, ok := b.Instrs[len(b.Instrs)-1].(*ssa.Return)
-			if !ok || !isNilConst(ret.Results[2]) {
+			if !ok || !isNilConst(retVals(ret)[2]) {
 				continue
 			}
 			ps := newPathSym(p, fn, f)
 			ps.WalkTo(b)
 			enc := xf("SM2Point.Bytes", xf("ScalarBaseMult", "priv"))
-			got := []string{normText(ps.S(ret.Results[0])), normText(ps.S(ret.Results[1]))}
+			got := []string{normText(ps.S(retVals(ret)[0])), normText(ps.S(retVals(ret)[1]))}
 			r.Check(got[0] == enc+"[1:33]" && got[1] == enc+"[33:]", "KEYPAIR-EXPRESSION", "sm2.DerivePublic", p.InstrPos(ret), fmt.Sprintf("returns (%s)", strings.Join(got, ", ")))
 			checkInventory(r, p, ps, "sm2.DerivePublic", p.InstrPos(ret), []guardReq{
 				{"(priv, TestPrivateKey = 0, error)", []string{"TestPrivateKey(priv) == 0"}, "error"},
@@ -210,7 +210,7 @@ func c12CurveEquation(r *Report, p *Prog, f *Folder) {
 	// nil only under Equal == 1
 	for _, blk := range fn.Blocks {
 		ret, isRet := blk.Instrs[len(blk.Instrs)-1].(*ssa.Return)
-		if !isRet || !isNilConst(ret.Results[0]) {
+		if !isRet || !isNilConst(retVals(ret)[0]) {
 			continue
 		}
 		ps := newPathSym(p, fn, f)
